@@ -2,8 +2,11 @@ package main
 
 import (
 	"fmt"
+	"go/ast"
 	"go/token"
 	"go/types"
+	"sort"
+	"strings"
 
 	"golang.org/x/tools/go/ssa"
 )
@@ -193,3 +196,296 @@ var guardIndexReviewed = map[string]string{
 	"parser.(*parser).parseRegExpLiteral:string[..1..]":     "under err == nil scanString returned a pattern that includes both delimiters",
 	"parser.(*parser).parseRegExpLiteral:string[..22..]":    "regexp/syntax error strings start with the 22-byte prefix \"error parsing regexp: \" (library format)",
 }
+
+func init() {
+	register(&Rule{ID: "SPAN-total", Props: []string{"C04"}, Min: 4,
+		Doc: "G: the span methods Idx0 / Idx1 of the ast node types are total on every tree the parser accepts: where one indexes a slice field (first or last element) either a dominating test implies the slice is non-empty, or the reviewed table names the parser loop that guarantees an element. A span method that panics on an accepted program (an empty program, a case clause without statements) breaks every consumer that walks the tree asking for positions",
+		Run: ruleSpanTotal})
+}
+
+// nonEmptySlice: v is provably a slice with at least one element: a non-empty literal, the result of an append that
+// adds something, a phi of such values, or the result of a function all of whose returns are such values.
+func nonEmptySlice(v ssa.Value, seen map[ssa.Value]bool, depth int) bool {
+	if v == nil || depth > 8 {
+		return false
+	}
+	if seen[v] {
+		return true // a cycle through a loop phi: decided by the other edges
+	}
+	seen[v] = true
+	switch x := v.(type) {
+	case *ssa.Slice:
+		if al, ok := x.X.(*ssa.Alloc); ok {
+			if pt, ok := al.Type().Underlying().(*types.Pointer); ok {
+				if arr, ok := pt.Elem().Underlying().(*types.Array); ok && arr.Len() >= 1 && x.Low == nil && x.High == nil {
+					return true
+				}
+			}
+		}
+	case *ssa.Phi:
+		for _, e := range x.Edges {
+			if !nonEmptySlice(e, seen, depth+1) {
+				return false
+			}
+		}
+		return true
+	case *ssa.Call:
+		if bi, ok := x.Call.Value.(*ssa.Builtin); ok && bi.Name() == "append" {
+			if len(x.Call.Args) >= 2 {
+				// append(s, e...): go/ssa passes the appended elements as one slice (a fresh array for explicit elements)
+				return nonEmptySlice(x.Call.Args[1], seen, depth+1) || nonEmptySlice(x.Call.Args[0], seen, depth+1)
+			}
+			return false
+		}
+		if callee := x.Call.StaticCallee(); callee != nil && callee.Blocks != nil && callee.Signature.Results().Len() == 1 {
+			all := true
+			n := 0
+			for _, b := range callee.Blocks {
+				for _, ins := range b.Instrs {
+					if ret, ok := ins.(*ssa.Return); ok && len(ret.Results) == 1 {
+						n++
+						if !nonEmptySlice(ret.Results[0], seen, depth+1) {
+							all = false
+						}
+					}
+				}
+			}
+			return all && n > 0
+		}
+	}
+	return false
+}
+
+func ruleSpanTotal(c *Ctx, r *R) {
+	type need struct {
+		typ, field string
+		site       string
+		method     string
+	}
+	var needs []need
+	for _, fn := range c.AllSrcFuncs("ast") {
+		if fn.Parent() != nil || (fn.Name() != "Idx0" && fn.Name() != "Idx1") {
+			continue
+		}
+		for _, b := range fn.Blocks {
+			for _, ins := range b.Instrs {
+				ia, ok := ins.(*ssa.IndexAddr)
+				if !ok {
+					continue
+				}
+				a := loadAddr(ia.X)
+				if a == nil {
+					continue
+				}
+				nt, f := fieldOfAddr(a)
+				if f == nil || nt == nil {
+					continue
+				}
+				key := fmt.Sprintf("%s:%s", ssaFuncName(fn), f.Name())
+				site := c.Pos(instrPos(ia))
+				if minLenAt(fn, ia.X, ia) >= 1 {
+					r.ok(key, site, "dominated by a test implying the slice is non-empty")
+					continue
+				}
+				needs = append(needs, need{nt.Obj().Name(), f.Name(), site, ssaFuncName(fn)})
+			}
+		}
+	}
+	// every place the parser gives the field a value must give it a provably non-empty slice
+	for _, nd := range needs {
+		key := fmt.Sprintf("%s:%s", nd.method, nd.field)
+		stores := 0
+		var bad []string
+		for _, fn := range c.AllSrcFuncs("parser") {
+			for _, b := range fn.Blocks {
+				for _, ins := range b.Instrs {
+					st, ok := ins.(*ssa.Store)
+					if !ok {
+						continue
+					}
+					nt, f := fieldOfAddr(st.Addr)
+					if nt == nil || f == nil || nt.Obj().Name() != nd.typ || f.Name() != nd.field || nt.Obj().Pkg().Path() != ottoPath+"/ast" {
+						continue
+					}
+					stores++
+					if !nonEmptySlice(st.Val, map[ssa.Value]bool{}, 0) && minLenAt(fn, st.Val, st) < 1 {
+						bad = append(bad, c.Pos(instrPos(st)))
+					}
+				}
+			}
+		}
+		switch {
+		case stores == 0:
+			r.bad(key, nd.site, fmt.Sprintf("%s indexes the slice field %s without a test that it is non-empty, and the parser never stores into %s.%s", nd.method, nd.field, nd.typ, nd.field))
+		case len(bad) > 0:
+			r.bad(key, nd.site, fmt.Sprintf("%s indexes the slice field %s without a test that it is non-empty, but the parser can store a possibly empty slice there (%s): asking such a node for its span panics with index out of range", nd.method, nd.field, strings.Join(bad, ", ")))
+		default:
+			r.ok(key, nd.site, fmt.Sprintf("unguarded, but each of the %d parser store(s) into %s.%s provides a provably non-empty slice (literal, append, or under a length test)", stores, nd.typ, nd.field))
+		}
+	}
+}
+
+func init() {
+	register(&Rule{ID: "SPAN-fields", Props: []string{"C04"}, Min: 30,
+		Doc: "T (reader/writer agreement): every position field (type file.Idx) that a node type's Idx0 / Idx1 method reads is given a value at every place the parser constructs that node type - as a key of the composite literal or by an assignment to that field in the same function. A position left at its zero value makes the node report a span that starts or ends before the file (outside its parent's span)",
+		Run: ruleSpanFields})
+}
+
+func ruleSpanFields(c *Ctx, r *R) {
+	astPkg := c.Pkg("ast")
+	parserPkg := c.Pkg("parser")
+	if astPkg == nil || parserPkg == nil {
+		r.undecided("unresolved:packages", "-", "UNRESOLVED: ast / parser packages not loaded")
+		return
+	}
+	// fields read by the span methods, per node type
+	reads := map[string]map[string]bool{}
+	for _, f := range astPkg.Syntax {
+		for _, d := range f.Decls {
+			fd, ok := d.(*ast.FuncDecl)
+			if !ok || fd.Recv == nil || fd.Body == nil || (fd.Name.Name != "Idx0" && fd.Name.Name != "Idx1") {
+				continue
+			}
+			recvT := derefNamed(astPkg.TypesInfo.TypeOf(fd.Recv.List[0].Type))
+			if recvT == nil || len(fd.Recv.List[0].Names) == 0 {
+				continue
+			}
+			recvObj := astPkg.TypesInfo.Defs[fd.Recv.List[0].Names[0]]
+			ast.Inspect(fd.Body, func(n ast.Node) bool {
+				sel, ok := n.(*ast.SelectorExpr)
+				if !ok {
+					return true
+				}
+				id, ok := unparen(sel.X).(*ast.Ident)
+				if !ok || astPkg.TypesInfo.Uses[id] != recvObj {
+					return true
+				}
+				if fv, ok := astPkg.TypesInfo.Uses[sel.Sel].(*types.Var); ok && fv.IsField() {
+					if n := derefNamed(fv.Type()); n != nil && n.Obj().Name() == "Idx" && n.Obj().Pkg().Path() == ottoPath+"/file" {
+						if reads[recvT.Obj().Name()] == nil {
+							reads[recvT.Obj().Name()] = map[string]bool{}
+						}
+						reads[recvT.Obj().Name()][sel.Sel.Name] = true
+					}
+				}
+				return true
+			})
+		}
+	}
+	// construction sites in the parser
+	info := parserPkg.TypesInfo
+	// fields assigned per function, and who calls whom (a constructor helper's caller may complete the node)
+	assignedIn := map[types.Object]map[string]map[string]bool{}
+	callersOf := map[types.Object][]types.Object{}
+	for _, f := range parserPkg.Syntax {
+		for _, d := range f.Decls {
+			fd, ok := d.(*ast.FuncDecl)
+			if !ok || fd.Body == nil {
+				continue
+			}
+			self := info.Defs[fd.Name]
+			assignedIn[self] = map[string]map[string]bool{}
+			ast.Inspect(fd.Body, func(n ast.Node) bool {
+				switch x := n.(type) {
+				case *ast.AssignStmt:
+					for _, l := range x.Lhs {
+						if sel, ok := unparen(l).(*ast.SelectorExpr); ok {
+							if nt := derefNamed(info.TypeOf(sel.X)); nt != nil && nt.Obj().Pkg() != nil && nt.Obj().Pkg().Path() == ottoPath+"/ast" {
+								if assignedIn[self][nt.Obj().Name()] == nil {
+									assignedIn[self][nt.Obj().Name()] = map[string]bool{}
+								}
+								assignedIn[self][nt.Obj().Name()][sel.Sel.Name] = true
+							}
+						}
+					}
+				case *ast.CallExpr:
+					if sel, ok := x.Fun.(*ast.SelectorExpr); ok {
+						if callee, ok := info.Uses[sel.Sel].(*types.Func); ok {
+							callersOf[callee] = append(callersOf[callee], self)
+						}
+					}
+				}
+				return true
+			})
+		}
+	}
+	for _, f := range parserPkg.Syntax {
+		for _, d := range f.Decls {
+			fd, ok := d.(*ast.FuncDecl)
+			if !ok || fd.Body == nil {
+				continue
+			}
+			// fields assigned anywhere in this function, per node type
+			assigned := map[string]map[string]bool{}
+			ast.Inspect(fd.Body, func(n ast.Node) bool {
+				as, ok := n.(*ast.AssignStmt)
+				if !ok {
+					return true
+				}
+				for _, l := range as.Lhs {
+					if sel, ok := unparen(l).(*ast.SelectorExpr); ok {
+						if nt := derefNamed(info.TypeOf(sel.X)); nt != nil && nt.Obj().Pkg() != nil && nt.Obj().Pkg().Path() == ottoPath+"/ast" {
+							if assigned[nt.Obj().Name()] == nil {
+								assigned[nt.Obj().Name()] = map[string]bool{}
+							}
+							assigned[nt.Obj().Name()][sel.Sel.Name] = true
+						}
+					}
+				}
+				return true
+			})
+			ord := map[string]int{}
+			ast.Inspect(fd.Body, func(n ast.Node) bool {
+				cl, ok := n.(*ast.CompositeLit)
+				if !ok {
+					return true
+				}
+				nt := derefNamed(info.TypeOf(cl))
+				if nt == nil || nt.Obj().Pkg() == nil || nt.Obj().Pkg().Path() != ottoPath+"/ast" {
+					return true
+				}
+				want := reads[nt.Obj().Name()]
+				if len(want) == 0 {
+					return true
+				}
+				have := map[string]bool{}
+				for _, el := range cl.Elts {
+					if kv, ok := el.(*ast.KeyValueExpr); ok {
+						if id, ok := kv.Key.(*ast.Ident); ok {
+							have[id.Name] = true
+						}
+					}
+				}
+				var missing []string
+				for fld := range want {
+					if have[fld] || assigned[nt.Obj().Name()][fld] {
+						continue
+					}
+					// completed by every caller of this helper?
+					callers := callersOf[info.Defs[fd.Name]]
+					byCallers := len(callers) > 0
+					for _, cl := range callers {
+						if !assignedIn[cl][nt.Obj().Name()][fld] {
+							byCallers = false
+						}
+					}
+					if !byCallers {
+						missing = append(missing, fld)
+					}
+				}
+				sort.Strings(missing)
+				base := fmt.Sprintf("%s:%s", declName(fd), nt.Obj().Name())
+				ord[base]++
+				key := fmt.Sprintf("%s#%d", base, ord[base])
+				if why, ok := spanFieldsReviewed[base+":"+strings.Join(missing, ",")]; ok && len(missing) > 0 {
+					r.ok("reviewed:"+key, c.Pos(cl.Pos()), why)
+					return true
+				}
+				r.check(len(missing) == 0, key, c.Pos(cl.Pos()), "every position its span methods read is set", fmt.Sprintf("the parser builds an ast.%s here without setting %s, which %s.Idx0/Idx1 read: the node reports a span that starts or ends at position 0, outside the file and its parent", nt.Obj().Name(), strings.Join(missing, ", "), nt.Obj().Name()))
+				return true
+			})
+		}
+	}
+}
+
+var spanFieldsReviewed = map[string]string{}
